@@ -106,7 +106,7 @@ func ruleMultiStream(c *Ctx, r *Report, prefix string) {
 		}
 		// reads: ReadFull(data[:4]) then ReadFull(data[4:]) of the same 12-byte buffer
 		var rf []*ssa.Call
-		for _, b := range nsr.Blocks {
+		for _, b := range theCtx.GB(nsr) {
 			for _, ins := range b.Instrs {
 				if call, ok := ins.(*ssa.Call); ok && stdCalleeName(call) == "io.ReadFull" {
 					rf = append(rf, call)
@@ -311,7 +311,7 @@ func ruleMatcherGuard(c *Ctx, r *Report, prefix string, exact bool) {
 	cone := moduleOnly(c, c.Cone(roots...))
 	n := 0
 	for _, fn := range sortedFuncs(cone) {
-		for _, b := range fn.Blocks {
+		for _, b := range theCtx.GB(fn) {
 			for _, ins := range b.Instrs {
 				call, ok := callTo(ins, matchLen)
 				if !ok {
@@ -351,7 +351,7 @@ func ruleMatcherGuard(c *Ctx, r *Report, prefix string, exact bool) {
 						weak = fmt.Sprintf("compared with `%s` at %s", op, c.InstrPos(g.iff))
 						continue
 					}
-					if okEdge == b || okEdge.Dominates(b) {
+					if okEdge == b || theCtx.Dom(okEdge, b) {
 						found = true
 					}
 				}
@@ -469,7 +469,7 @@ func ruleXZWriter(c *Ctx, r *Report, prefix string) {
 	// (c) fresh check instance per block
 	{
 		ok := false
-		for _, b := range nbw.Blocks {
+		for _, b := range theCtx.GB(nbw) {
 			for _, ins := range b.Instrs {
 				if call, isC := callTo(ins, cfgNBW); isC {
 					h := call.Call.Args[len(call.Call.Args)-1]
@@ -606,7 +606,7 @@ func ruleXZWriter(c *Ctx, r *Report, prefix string) {
 		// blockWriter.Close is called only from closeBlockWriter
 		var callers []string
 		for _, fn := range c.ModFuncs("") {
-			for _, b := range fn.Blocks {
+			for _, b := range theCtx.GB(fn) {
 				for _, ins := range b.Instrs {
 					if isCallTo(ins, bwClose) && fn != cbw {
 						callers = append(callers, FnName(fn))
